@@ -73,6 +73,30 @@ fn check(case: &Case) -> PResult {
     ensure!(or.contains(sa) && or.contains(sb), "contains_union", "(a|b) does not contain a or b");
     ensure!(sa.contains(&and) && sb.contains(&and), "contains_intersection", "a or b does not contain (a&b)");
     ensure!(sa.contains(sa), "contains_reflexive", "a does not contain itself");
+    // the static array type has its own `contains`
+    macro_rules! arr_contains {
+        ($n:literal, $w:literal) => {
+            if n == $n {
+                let mut words = [0usize; $w];
+                for (i, w) in crate::model::pack_words(ca, 4).iter().enumerate() {
+                    words[i] = *w as usize;
+                }
+                let arr: SeqArray<IupacC, $n, $w> = SeqArray { _p: core::marker::PhantomData, ba: bitvec::array::BitArray::new(words) };
+                let got = no_panic("contains_panic", "SeqArray::contains", || arr.contains(sb))?;
+                ensure_eq!(got, exp, "contains_array", "SeqArray a.contains(b) with a={} b={}", sy.text(ca), sy.text(cb));
+                let bcx = build(&sy, &case.c)?;
+                ensure_eq!(arr.contains(bcx.slice()), subset(&case.c.codes, ca), "contains_array_len", "SeqArray a.contains(c) with lengths {} and {}", n, case.c.codes.len());
+            }
+        };
+    }
+    arr_contains!(1, 1);
+    arr_contains!(3, 1);
+    arr_contains!(15, 1);
+    arr_contains!(16, 1);
+    arr_contains!(17, 2);
+    arr_contains!(31, 2);
+    arr_contains!(32, 2);
+    arr_contains!(33, 3);
     // length mismatch
     let bc = build(&sy, &case.c)?;
     let sc = bc.slice();
@@ -143,20 +167,38 @@ pub fn run(ctx: &mut Ctx) {
     ctx.forall("pairs", cases, strat(max), check);
     {
         let m = ID.model();
-        let th = ctx.thorough();
-        let cases = ctx.cases(8, 8);
-        let st = gen::seq_spec_long(ID, th)
-            .prop_flat_map(move |a| {
-                let n = a.len();
-                let ca = a.codes.clone();
-                let b = prop_oneof![
-                    1 => gen::codes_n(m, n),
-                    1 => vec(0..16u8, n).prop_map(move |mask| ca.iter().zip(mask).map(|(x, k)| x & k).collect::<Vec<u8>>()),
-                ];
-                (Just(a), b, gen::repr(m), gen::seq_spec(ID, 40))
-            })
-            .prop_map(|(a, b, rb, c)| Case { a, b: SeqSpec { codes: b, repr: rb }, c });
-        ctx.forall("pairs_long", cases, st, check);
+        let lens = gen::long_lens(ctx.thorough());
+        ctx.forall_lens(
+            "pairs_long",
+            &lens,
+            |_n| {
+                gen::seq_spec_n(ID, _n)
+                    .prop_flat_map(move |a| {
+                        let n = a.len();
+                        let ca = a.codes.clone();
+                        let ca2 = a.codes.clone();
+                        let b = prop_oneof![
+                            1 => gen::codes_n(m, n),
+                            2 => vec(0..16u8, n).prop_map(move |mask| ca.iter().zip(mask).map(|(x, k)| x & k).collect::<Vec<u8>>()),
+                            // near miss: a subset everywhere except at one position close to the end (or anywhere)
+                            3 => (vec(0..16u8, n), prop_oneof![2 => 0..40usize, 1 => 0..n.max(1)], 1..16u8).prop_map(move |(mask, back, extra)| {
+                                let mut b: Vec<u8> = ca2.iter().zip(mask).map(|(x, k)| x & k).collect();
+                                if n > 0 {
+                                    let at = n - 1 - back.min(n - 1);
+                                    b[at] = ca2[at] ^ 15 | (extra & !ca2[at] & 15);
+                                    if b[at] & !ca2[at] == 0 {
+                                        b[at] = ca2[at] & 7;
+                                    }
+                                }
+                                b
+                            }),
+                        ];
+                        (Just(a), b, gen::repr(m), gen::seq_spec(ID, 40))
+                    })
+                    .prop_map(|(a, b, rb, c)| Case { a, b: SeqSpec { codes: b, repr: rb }, c })
+            },
+            check,
+        );
     }
     let cases = ctx.cases(1500, 10);
     ctx.forall("from_dna", cases, gen::seq_spec(CodecId::Dna, 150), check_from_dna);
